@@ -6,7 +6,7 @@
 use crate::c03::{canon, first_diff};
 use crate::dump;
 use crate::out::Report;
-use crate::pgen::{self, Cmd, Gen, GenCfg};
+use crate::pgen::{self, Cmd, Gen, GenCfg, Sched};
 use crate::rng::Rng;
 use crate::run::{self, Outcome};
 use crate::Args;
@@ -36,6 +36,71 @@ fn sched_ok(eg: &mut EGraph, text: &str) -> Result<bool, String> {
         }
     }
     Ok(updated)
+}
+
+/// Literal reading of a schedule: `(run R)` is one iteration; `seq` runs its members in order;
+/// `repeat n` executes its body up to n times and stops early only after an execution that
+/// changed nothing; `saturate` executes its body until an execution changes nothing. "Changed"
+/// is decided by the canonical dump, never by the engine's own progress signal.
+fn interp(e: &mut EGraph, s: &Sched, budget: &mut usize) -> Result<bool, String> {
+    if *budget == 0 {
+        return Err("budget".into());
+    }
+    match s {
+        Sched::Run(r, None) => {
+            *budget -= 1;
+            step(e, r).map(|(_, changed)| changed)
+        }
+        Sched::Run(_, Some(_)) => Err("until".into()),
+        Sched::Seq(v) => {
+            let mut any = false;
+            for x in v {
+                any |= interp(e, x, budget)?;
+            }
+            Ok(any)
+        }
+        Sched::Repeat(n, v) => {
+            let mut any = false;
+            for _ in 0..*n {
+                let mut ch = false;
+                for x in v {
+                    ch |= interp(e, x, budget)?;
+                }
+                if !ch {
+                    break;
+                }
+                any = true;
+            }
+            Ok(any)
+        }
+        Sched::Saturate(v) => {
+            let mut any = false;
+            loop {
+                let mut ch = false;
+                for x in v {
+                    ch |= interp(e, x, budget)?;
+                }
+                if !ch {
+                    break;
+                }
+                any = true;
+            }
+            Ok(any)
+        }
+    }
+}
+
+fn gen_sched(rng: &mut Rng, rulesets: &[String], depth: usize, saturate_ok: bool) -> Sched {
+    let run = |rng: &mut Rng| Sched::Run(rng.pick(rulesets).clone(), None);
+    if depth == 0 {
+        return run(rng);
+    }
+    match rng.weighted(&[2, 3, 4, if saturate_ok { 1 } else { 0 }]) {
+        0 => run(rng),
+        1 => Sched::Seq((0..2 + rng.below(2)).map(|_| gen_sched(rng, rulesets, depth - 1, saturate_ok)).collect()),
+        2 => Sched::Repeat(2 + rng.below(5) as u32, (0..1 + rng.below(2)).map(|_| gen_sched(rng, rulesets, depth - 1, saturate_ok)).collect()),
+        _ => Sched::Saturate(vec![gen_sched(rng, rulesets, depth - 1, false)]),
+    }
 }
 
 pub fn run(a: &Args) -> Report {
@@ -284,6 +349,49 @@ pub fn run(a: &Args) -> Report {
                         &replay,
                     );
                 }
+            }
+        }
+        // literal reference interpreter for random nested schedules (repeat in seq in repeat ...)
+        for k in 0..3 {
+            let rs: Vec<String> = sig.rulesets.clone();
+            let sched = if k == 0 {
+                // the shape in which an inner repeat stops early while the outer one must go on
+                let inner: Vec<Sched> = rs.iter().map(|r| Sched::Repeat(2 + rng.below(4) as u32, vec![Sched::Run(r.clone(), None)])).collect();
+                Sched::Repeat(3 + rng.below(6) as u32, vec![Sched::Seq(inner)])
+            } else {
+                gen_sched(&mut rng, &rs, 3, all_safe && saturate_terminates)
+            };
+            let text = format!("(run-schedule {sched})");
+            let mut e1 = base.clone();
+            let mut e2 = base.clone();
+            let o1 = run::run(&mut e1, &text);
+            let mut budget = 400usize;
+            let r2 = interp(&mut e2, &sched, &mut budget);
+            if e1.num_tuples() > 3000 {
+                rep.count("nested_schedules_skipped_large_db", 1);
+                continue;
+            }
+            match (o1.is_ok(), r2) {
+                (true, Ok(changed)) => {
+                    rep.count("nested_schedules_interpreted", 1);
+                    if changed {
+                        rep.count("nested_schedules_changing_db", 1);
+                    }
+                    let d1 = canon(&e1);
+                    let d2 = canon(&e2);
+                    if d1 != d2 {
+                        let replay = format!("{progtext}\n{text}");
+                        rep.violation(
+                            &format!("C10:nested:{}", dump::fnv(&replay)),
+                            &format!("{text} differs from its literal reading (repeat stops early only after an execution of its body that changed nothing; first = engine, second = reference): {}", first_diff(&d1, &d2)),
+                            &replay,
+                        );
+                    } else if changed {
+                        rep.nontrivial(&format!("nested|{text}|{d1}"));
+                    }
+                }
+                (_, Err(e)) if e == "budget" => rep.count("nested_schedules_budget_exhausted", 1),
+                _ => rep.count("nested_schedules_failed", 1),
             }
         }
         // :until
